@@ -181,6 +181,20 @@ theorem rolloff_step_untouched (roll : Roll) (ppc sr : ℝ) (freqs : List ℝ) (
     rollStep roll ppc sr freqs n = some (n, sr) :=
   rollStep_untouched' roll ppc sr freqs mf n hmf hp h
 
+/-- finding `srs-rolloff-linear`: `linroll` returns `N·k - 1` samples for the time span
+`[0, (N-1)/sr]` and labels them with the rate `sr·k`; a grid of spacing `1/(sr·k)` over that span
+has `(N-1)·k + 1` samples.  The two agree exactly for the factor `k = 2`. -/
+theorem rolloff_linear_grid_consistent_iff (N k : ℕ) (hN : 1 < N) (hk : 1 ≤ k) :
+    rollLen .linear N k = (N - 1) * k + 1 ↔ k = 2 := by
+  have h1 : (N - 1) * k = N * k - k := by rw [Nat.sub_mul, one_mul]
+  have h2 : 2 * k ≤ N * k := Nat.mul_le_mul_right k hN
+  simp only [rollLen, h1]
+  generalize N * k = m at *
+  omega
+
+/-- the hypothesis `k = 2` is necessary: 4 samples, factor 3 → 11 samples instead of 10 -/
+example : rollLen .linear 4 3 = 11 ∧ (4 - 1) * 3 + 1 = 10 := by decide
+
 /-- `M`, `N`, `S` after the roll-off step: `M` is the length of the *resampled* record, the
 appended cycle is `⌈sr'/minf⌉` samples at the *new* rate `sr'`, and `S = M` for `'residual'` -/
 theorem rolloff_index_values (roll : Roll) (time : Time) (ppc sr : ℝ) (freqs : List ℝ) (n M : ℕ)
